@@ -216,7 +216,10 @@ DefSane == IsCase => DefSaneOf(Def)
 DateBoundImplied == IsCase => \A ti \in Traces(cs.db) : \A si \in Spans(cs.db, ti) :
                                  InWindow(cs.db[ti][si], cs.q) => InitRow(cs.db[ti][si], cs.q)
 
-Selected == LET m == Mods[cs.layer] IN (cs.h + Seed) % m = 0
+Selected == LET m == Mods[cs.layer] IN ((((cs.h + Seed) % 9973) * 7919) % 9973) % m = 0
+
+\* the query without the unused term slots
+TrimQ(q) == [q EXCEPT !.sels = [i \in DOMAIN q.sels |-> [q.sels[i] EXCEPT !.t = SubSeq(q.sels[i].t, 1, Arity(q.sels[i].sh))]]]
 
 \* the three invariants above evaluated with the definition computed once, plus the export of
 \* the selected cases (binding input).  TLC re-evaluates state-level definitions at every use.
@@ -230,7 +233,7 @@ CheckCase ==
      /\ IF Selected
         THEN LET m == Mech
                  cand == ~ConformsAll(m, d, cs.q, cs.db)
-             IN PrintT(<<"C11CASE", ToJson([layer |-> cs.layer, h |-> cs.h, i |-> cs.i, q |-> cs.q, db |-> cs.db,
+             IN PrintT(<<"C11CASE", ToJson([layer |-> cs.layer, h |-> cs.h, i |-> cs.i, q |-> TrimQ(cs.q), db |-> cs.db,
                                              def |-> d, mech |-> m, cand |-> cand,
                                              explain |-> IF cand THEN ExplainWith(cs.q, cs.db, d) ELSE {}])>>)
         ELSE TRUE
